@@ -6,9 +6,9 @@ META["C16"] = {
     "level": "exploration",
     "tiers": {
         "quick": {"shards": 8, "deadline_s": 120,
-                  "bounds": "all (total, world, rank) with total <= 4096, world <= 128; boundary lattice 2^k+-3 (k <= 63) x worlds {1..65, 2^j, 2^j+-1 (j <= 31)}; mpi_plain / mpi_vegas / mpi_multi_channel under the shim for world <= 12, run on a sub-communicator whose ranks differ from the world ranks; mpi_plain's points in rank order against the serial stream"},
+                  "bounds": "all (total, world, rank) with total <= 4096, world <= 128; boundary lattice 2^k+-3 (k <= 63) x worlds {1..65, 2^j, 2^j+-1 (j <= 31)}; mpi_plain / mpi_vegas / mpi_multi_channel under the shim for world <= 12, run on a sub-communicator whose ranks differ from the world ranks; mpi_plain's points in rank order against the serial stream; two iterations, an integrand with a cut (exact zeros) and a non-finite region, also a single-channel multi-channel integrand"},
         "thorough": {"shards": 16, "deadline_s": 900,
-                     "bounds": "all (total, world, rank) with total <= 100000, world <= 256; the same lattice; the three mpi_* integrators under the shim for world <= 33 and three numeric types"},
+                     "bounds": "all (total, world, rank) with total <= 100000, world <= 256; the same lattice; the three mpi_* integrators under the shim for world <= 33 and three numeric types; mpi_plain with 2^31 + 3 calls on 4 ranks (the share is computed inside the integrators, in whatever integer type they use)"},
     },
     "rule": "exhaustive nested enumeration of (total, world) with every rank; a pair is non-trivial when total is not divisible by world (the remainder handling is exercised); distinct = distinct (total, world) pairs",
     "assumptions": [
@@ -21,7 +21,7 @@ META["C09"] = {
     "level": "exploration",
     "tiers": {
         "quick": {"shards": 1, "deadline_s": 120,
-                  "bounds": "all weight vectors of length 1..4 over {0,1,2,3,0.1,1/3,1e-3} x every critical canonical value x 3 types; vectors of 5..48 channels (equal, increasing, alternating zeros, one zero at every position); all 2^24 float canonical values for 4 weight vectors; critical values as channel draw inside multi_channel_iteration for all vectors over {0,1,2,3}"},
+                  "bounds": "all weight vectors of length 1..4 over {0,1,2,3,0.1,1/3,1e-3} x every critical canonical value x 3 types; vectors of 5..48 channels (equal, increasing, alternating zeros, one zero at every position); all 2^24 float canonical values for 4 weight vectors; critical values as channel draw inside multi_channel_iteration for all vectors over {0,1,2,3} and for weights that are tiny but not zero; channels of relative weight eps/2 at the end of the unit interval; totals that are subnormal or barely normal"},
         "thorough": {"shards": 1, "deadline_s": 900,
                      "bounds": "as quick, with the full 2^24 value sweep for 71 weight vectors"},
     },
@@ -29,6 +29,7 @@ META["C09"] = {
     "assumptions": [
         "the canonical number for a raw 64-bit output is computed by calling std::generate_canonical on a copy of the engine (same standard function the library calls)",
         "a canonical number within 8 epsilon of a cumulative boundary may select either neighbour (closed vs half-open is left open by the property); a disabled channel is never accepted",
+        "for weight vectors whose cumulative sums are exact in T whichever way they are computed (every partial sum exact by the error-free transformation, total a power of two) the intervals are known exactly and no tolerance is used",
     ],
 }
 
@@ -100,7 +101,7 @@ META["C10"] = {
     "parts": 3,
     "tiers": {
         "quick": {"shards": 3, "deadline_s": 200,
-                  "bounds": "3 types x 9 standard engines x {PLAIN, VEGAS, MULTI-CHANNEL (weight touched or not)} x d in {1,2,3} x calls in {0,1,2,5} x 4 integrand patterns x {default, user grid / weights with one disabled channel, weights with a single enabled channel}; stored generators over 3 iterations (3,0,5 calls); engine ranges R = 2..4096, 2^k, 2^k+-1 (k <= 64), offsets 0,1,5; every pattern of {0, 1/2, largest below 1} over the canonical numbers of two calls (scripted engine)"},
+                  "bounds": "3 types x 9 standard engines x {PLAIN, VEGAS, MULTI-CHANNEL (weight touched or not)} x d in {1,2,3} x calls in {0,1,2,5} x 4 integrand patterns x {default, user grid / weights with one disabled channel, weights with a single enabled channel}; stored generators over 3 iterations (3,0,5 calls), and for mpi_plain / mpi_vegas / mpi_multi_channel on every one of 3 ranks after each of 4 iterations (7,0,5,2 calls), the latter two called again in the same process with three dimensions; engine ranges R = 2..4096, 2^k, 2^k+-1 (k <= 64), offsets 0,1,5; every pattern of {0, 1/2, largest below 1} over the canonical numbers of two calls (scripted engine)"},
         "thorough": {"shards": 3, "deadline_s": 600, "bounds": "same as quick (the product is already complete)"},
     },
     "rule": "full product of configurations; the counting engine wrapper counts raw draws, the integrand snapshots the counter at every call; non-trivial = at least one call and a non-zero integrand pattern; distinct = distinct configurations",
@@ -147,12 +148,13 @@ META["C06"] = {
     "parts": 3,
     "tiers": {
         "quick": {"shards": 3, "deadline_s": 300,
-                  "bounds": "PLAIN (d=2), VEGAS (4 bins, d=2, alpha 1.5), MULTI-CHANNEL (3 channels, beta 1/2, min 0.01); 3 adaptive iterations of 6 calls; every non-empty subset of the 6 points of one iteration (x3 iterations); every assignment of {NaN,+inf,-inf} (weight faults: also zero densities, and - with user weights that disable a channel - a NaN density of the disabled channel only) for subsets of size <= 4, uniform kinds above; fault from the integrand value, the value handed to projector.add, or the multi-channel weight; with and without distributions (one 1-d with 3 bins and one 2-d with 2x2 bins); 3 types"},
+                  "bounds": "PLAIN (d=2), VEGAS (4 bins, d=2, alpha 1.25), MULTI-CHANNEL (3 channels, beta 1/2, min 0.01); 3 adaptive iterations of 6 calls; every non-empty subset of the 6 points of one iteration (x3 iterations); every assignment of {NaN,+inf,-inf, and - for the integrand's value - the largest finite number, a fault where its product with the weight overflows} (weight faults: also zero densities, and - with user weights that disable a channel - a NaN density of the disabled channel only) for subsets of size <= 4, uniform kinds above; fault from the integrand value, the value handed to projector.add, or the multi-channel weight; with and without distributions (one 1-d with 3 bins and one 2-d with 2x2 bins); 3 types"},
         "thorough": {"shards": 3, "deadline_s": 1800, "bounds": "as quick with 8 sampled points per iteration (every non-empty subset of 8)"},
     },
     "rule": "every fault subset x kind assignment is run on the real integrators and compared with its pair (same script, zero returned at the faulted points) on the canonical field description with non_zero_calls and bin counters masked; non-trivial = every case (at least one fault); distinct = distinct (configuration, iteration, subset, kinds)",
     "assumptions": [
         "finite values are O(1) so that squares cannot overflow; overflow of a finite value's square is outside the property",
+        "which poisoned points are faults is observed (the integrand looks at point.weight() there), not assumed: the pair returns zero exactly where the product of value and weight was non-finite; a NaN in the density slot of a disabled channel is either such a fault or must be ignored completely (documentation: 'will be ignored'), i.e. the run must equal one that never saw it; the variance-weighted combination of every prefix of the results (integrated and per bin) must equal the pair's and be finite when the pair's is",
         "bin counters of distributions are masked in the comparison (the property speaks of counters aside); non_zero_calls of the faulted iteration must exceed the pair's by exactly the number of faulted points whose value is non-zero, finite_calls must be equal",
     ],
 }
@@ -209,7 +211,7 @@ META["C19"] = {
     "parts": 3,
     "tiers": {
         "quick": {"shards": 3, "deadline_s": 300,
-                  "bounds": "iteration counts 1..4 (calls [3],[2,4],[3,1,4],[2,3,2,4]); VEGAS d=2 with default grids of 2..5 bins and a user grid, alpha in {0,0.5,1.5,4/3}; MULTI-CHANNEL default / unnormalised user weights / user weights with a zero, beta in {1/4,1}, min in {0,0.05}; execution: uninterrupted, resumed from text before the first iteration and at every split point, MPI shim with P in {1,2,3}; 3 types"},
+                  "bounds": "iteration counts 1..4 (calls [3],[2,4],[3,1,4],[2,3,2,4]); VEGAS d=2 with default grids of 2..5 bins and a user grid, alpha in {0,0.5,1.5,4/3}; MULTI-CHANNEL default / unnormalised user weights / user weights with a zero, beta in {1/4,1}, min in {0,0.05}; execution: uninterrupted, resumed from text before the first iteration and at every split point, after another run and a rollback to the start, MPI shim with P in {1,2,3}, and a serial run continued under MPI (P in {1,3}) from text at every split point; multi-channel integrands also created with a distribution; 3 types"},
         "thorough": {"shards": 3, "deadline_s": 900, "bounds": "as quick with 5 iterations (calls [2,1,3,2,4]) and 4 ranks"},
     },
     "rule": "every configuration x execution mode is run on the real integrators with a scripted engine and a logging integrand; states = results whose recorded state was checked against the points actually seen, transitions = refinement steps checked against the library's refine function applied to the recorded data; distinct_nontrivial = distinct cases with at least two iterations",
@@ -300,12 +302,12 @@ META["C18"] = {
     "level": "fault_enumeration",
     "tiers": {
         "quick": {"shards": 3, "deadline_s": 400,
-                  "bounds": "PLAIN (about 300 byte checkpoints), VEGAS 128 bins x 4 dimensions (about 13 kB per result, several write calls per checkpoint), MULTI-CHANNEL 30 channels; 3 iterations; silent_and_write_chkpt and verbose_and_write_chkpt; file absent or holding an older (empty) checkpoint, with and without a partial temporary file left behind by an earlier killed run, with the first or second rename of the run failing (injected ENAMETOOLONG), with the callback instantiated for the checkpoint's base type, and with a checkpoint file named 'run.tmp'; every position in the operation log and every byte prefix of every write; real-kill validation at every log position with byte prefixes {0, 1, middle, last}; 3 types"},
+                  "bounds": "PLAIN (about 300 byte checkpoints), VEGAS 128 bins x 4 dimensions (about 13 kB per result, several write calls per checkpoint), MULTI-CHANNEL 30 channels; 3 iterations; silent_and_write_chkpt and verbose_and_write_chkpt; file absent or holding an older (empty) checkpoint, with and without a partial temporary file left behind by an earlier killed run, with the first or second rename of the run failing (injected ENAMETOOLONG), with the callback instantiated for the checkpoint's base type, and with a checkpoint file named 'run.tmp'; every position in the operation log (failed calls included) and every byte prefix of every write; real-kill validation at every log position with byte prefixes {0, 1, middle, last}; 3 types"},
         "thorough": {"shards": 3, "deadline_s": 1800, "bounds": "as quick with real-kill validation at every 97th byte of every write"},
     },
     "rule": "fault enumeration over crash points: (operation index, bytes of the write in flight); byte prefixes of a write to a file other than the checkpoint file leave the checkpoint file unchanged and are counted once per operation; distinct = distinct crash points whose checkpoint-file content was judged; non-trivial = every crash point",
     "assumptions": [
         "kill model of the property: every completed system call persists, the call in flight may be cut at any byte; power loss (unsynced data disappearing) is not modelled",
-        "the interposer sees fopen/fopen64/open/creat, write/writev, fclose/close, rename, unlink/remove, truncate/ftruncate, fsync; a run whose real directory differs from the state predicted from the log ends with a harness error (exit 2), never a silent pass; positional or short writes are harness errors as well",
+        "the interposer sees fopen/fopen64/open/open64/openat/creat, write/writev/pwrite (each with the position it writes at), fclose/close, rename/renameat, unlink/remove, truncate/ftruncate, fsync/fdatasync and getpid (owned by the harness while a scenario runs); C stdio streams opened by the code under test get custom I/O functions (fopencookie) so that glibc's buffering is kept while every flush goes through the logged write; failed calls are logged as kill points without effect; directory descriptors are tracked; a run whose real directory differs from the state predicted from the log ends with a harness error (exit 2), never a silent pass",
     ],
 }
